@@ -3,9 +3,11 @@ package main
 // timing suite (C15): real-time scenarios with wide margins, and the values of the deadlines.
 
 import (
+	"crypto/tls"
 	"flag"
 	"io"
 	"log"
+	"net"
 	"time"
 
 	kmip "github.com/smira/go-kmip"
@@ -94,6 +96,56 @@ func suiteTiming(args []string) {
 			}
 		}
 		mc.peerClose()
+	}()
+
+	// (a2) hostile peers only cost their own connections: after 80 connections whose TLS handshake fails (plain text instead of
+	// a ClientHello, peers that hang up at once) a well-behaved client is still served promptly
+	func() {
+		p := getPKI()
+		scfg := &tls.Config{Certificates: []tls.Certificate{p.server["valid"]}, ClientCAs: p.pool}
+		kmip.DefaultServerTLSConfig(scfg)
+		srv := &kmip.Server{TLSConfig: scfg, Log: log.New(io.Discard, "", 0), ReadTimeout: 2 * time.Second, WriteTimeout: 2 * time.Second}
+		l, err := tlsListen(scfg)
+		if err != nil {
+			return
+		}
+		init := make(chan struct{})
+		served := make(chan error, 1)
+		go func() { served <- srv.Serve(l, init) }()
+		<-init
+		for i := 0; i < 80; i++ {
+			raw, err := net.DialTimeout("tcp", l.Addr().String(), time.Second)
+			if err != nil {
+				continue
+			}
+			if i%2 == 0 {
+				raw.Write([]byte("GET / HTTP/1.0\r\n\r\n"))
+				raw.SetReadDeadline(time.Now().Add(500 * time.Millisecond))
+				io.Copy(io.Discard, raw)
+			}
+			raw.Close()
+		}
+		ccfg := clientTLS()
+		ccfg.Certificates = append(ccfg.Certificates, p.client["valid"])
+		c := &kmip.Client{Endpoint: l.Addr().String(), TLSConfig: ccfg, ReadTimeout: 3 * time.Second, WriteTimeout: 3 * time.Second}
+		ok := false
+		if err := c.Connect(); err == nil {
+			if _, err := c.DiscoverVersions(nil); err == nil {
+				ok = true
+			}
+			c.Close()
+		}
+		rep.Evaluations++
+		if !ok {
+			viol("stall", map[string]interface{}{"scenario": "80 failed handshakes, then a well-behaved client", "what": "after 80 connections whose TLS handshake failed a client with a valid certificate is no longer served: hostile peers cost more than their own connections"})
+		}
+		ctx, cancel := contextWithTimeout(2 * time.Second)
+		srv.Shutdown(ctx)
+		cancel()
+		select {
+		case <-served:
+		case <-time.After(2 * time.Second):
+		}
 	}()
 
 	// (b) a peer that stalls before a request, inside its header or inside its body is disconnected, and
